@@ -194,42 +194,52 @@ func successors(p *program, reduced bool, must string) []*program {
 		}
 		wn, rn, bn := fmt.Sprintf("n%d_W", k), fmt.Sprintf("n%d_R", k), fmt.Sprintf("n%d_B", k)
 		inits := map[string]*ref.T{wn: recFill(ref.F32, []int{1, ng * 2, 2}, 2+k), rn: recFill(ref.F32, []int{1, ng * 2, 2}, 3+k), bn: recFill(ref.F32, []int{1, 2 * ng * 2}, 4+k)}
-		attrs := []hx.Attr{hx.AInt("hidden_size", 2)}
-		if op == "GRU" && k%2 == 1 {
-			attrs = append(attrs, hx.AStrs("activations", "sigmoid", "relu")) // a second GRU node differs in attributes
-		}
-		for _, x := range S {
-			hopts := append([]string{"<omit>", ""}, H...)
-			for _, hv := range hopts {
-				ins := []string{x, wn, rn, bn}
-				switch hv {
-				case "<omit>":
-				default:
-					ins = append(ins, "", hv)
-					if op == "LSTM" && hv != "" {
-						ins = append(ins, H[0]) // initial_c
-					}
-				}
-				var schemes [][]string
-				spec := []string{"Y", "Y_h", "Y_c"}[:nret]
-				arb := make([]string, nret)
-				for j := range arb {
-					arb[j] = fresh(j)
-				}
-				perm := append([]string{}, spec...)
-				perm[0], perm[1] = perm[1], perm[0]
-				mid := append([]string{}, arb...)
-				if nret == 3 {
-					mid[1] = ""
-				} else {
-					mid[0] = ""
-				}
-				schemes = [][]string{arb, spec, perm, arb[:nret-1], mid}
+		for _, explicitActs := range []bool{false, true} {
+			attrs := []hx.Attr{hx.AInt("hidden_size", 2)}
+			actDesc := ""
+			if explicitActs { // the same operator type with different attributes (both orders arise at depth 2)
 				if reduced {
-					schemes = schemes[:1]
+					continue
 				}
-				for si, sc := range schemes {
-					emit(pNode{Op: op, Attrs: attrs, In: ins, Out: sc, NRet: nret, Inits: inits, Desc: fmt.Sprintf("{h=%q names=%d}", hv, si)}, sorts)
+				attrs = append(attrs, hx.AStrs("activations", map[string][]string{"RNN": {"relu"}, "GRU": {"sigmoid", "relu"}, "LSTM": {"tanh", "sigmoid", "relu"}}[op]...))
+				actDesc = " acts"
+			}
+			for _, x := range S {
+				hopts := append([]string{"<omit>", ""}, H...)
+				for _, hv := range hopts {
+					ins := []string{x, wn, rn, bn}
+					switch hv {
+					case "<omit>":
+					default:
+						ins = append(ins, "", hv)
+						if op == "LSTM" && hv != "" {
+							ins = append(ins, H[0]) // initial_c
+						}
+					}
+					var schemes [][]string
+					spec := []string{"Y", "Y_h", "Y_c"}[:nret]
+					arb := make([]string, nret)
+					for j := range arb {
+						arb[j] = fresh(j)
+					}
+					perm := append([]string{}, spec...)
+					perm[0], perm[1] = perm[1], perm[0]
+					mid := append([]string{}, arb...)
+					if nret == 3 {
+						mid[1] = ""
+					} else {
+						mid[0] = ""
+					}
+					schemes = [][]string{arb, spec, perm, arb[:nret-1], mid}
+					if reduced {
+						schemes = schemes[:1]
+					}
+					if explicitActs {
+						schemes = schemes[:2]
+					}
+					for si, sc := range schemes {
+						emit(pNode{Op: op, Attrs: attrs, In: ins, Out: sc, NRet: nret, Inits: inits, Desc: fmt.Sprintf("{h=%q names=%d%s}", hv, si, actDesc)}, sorts)
+					}
 				}
 			}
 		}
@@ -313,7 +323,7 @@ func buildProgram(p *program, valueSet int, pv progVariant) (*modelCase, string)
 func checkC01(c *hx.Checker) {
 	thorough := c.Tier == "thorough"
 	c.Rule = "program-construction transition system: state = program prefix over graph inputs a,b:(2,2) s:(2,1,2) h:(1,1,2) and initializers w1,w2; transition = append one node instance = template x wiring of every input slot to every value of the right sort (or absent: omitted / empty name) x output naming scheme. " +
-		"Templates: Add/Sub/Mul (all ordered pairs for Sub), Relu, Transpose, Softmax{axis=-1}, Softmax{axis=0}, MatMul, Gemm{transB}, Gemm{transA,alpha=.5,beta=2} (C wired / omitted / empty), Concat+Slice, Reshape, Squeeze, Constant, RNN/GRU/LSTM (initial_h omitted / empty / wired; 5 output naming schemes: arbitrary, spec names, permuted spec names, trailing output omitted, skipped output with empty name). " +
+		"Templates: Add/Sub/Mul (all ordered pairs for Sub), Relu, Transpose, Softmax{axis=-1}, Softmax{axis=0}, MatMul, Gemm{transB}, Gemm{transA,alpha=.5,beta=2} (C wired / omitted / empty), Concat+Slice, Reshape, Squeeze, Constant, RNN/GRU/LSTM with default and with explicit non-default activations (initial_h omitted / empty / wired; 5 output naming schemes: arbitrary, spec names, permuted spec names, trailing output omitted, skipped output with empty name). " +
 		"BFS: all programs of depth <= 2 over the full alphabet; depth 3 over the reduced alphabet {Sub, Relu, Transpose, Gemm2, GRU} as chains (each node consumes its predecessor's result)" +
 		map[bool]string{true: " and, thorough, unrestricted depth 3 over the reduced alphabet", false: ""}[thorough] +
 		"; 2 input value sets; every depth<=1 program also with w1 declared as graph input (not supplied / supplied with another value). Every program is marshalled, loaded with NewModelFromBytes and Run with EVERY intermediate value declared as graph output, and compared value by value with the reference evaluation of the same graph. " +
